@@ -31,18 +31,18 @@ def run(ctx):
         prog, info = load_program(cfg, "e57")
         ctx.configs[cfg] = info
         ctx.cfg = cfg
-        page_rules.seal_before_emit(ctx, prog, "R1", "table" if cfg == "lib" else "crate")
-        page_rules.flush_before_seek(ctx, prog, "R2")
-        page_rules.reload_after_advance(ctx, prog, "R3")
-        page_rules.flush_protocol(ctx, prog, "R3")
-        page_rules.formulas(ctx, prog, "R4")
-        page_rules.constants_agree(ctx, prog, "R5")
-        page_rules.cursor_writers(ctx, prog, "R5")
-        page_rules.read_current_page_shape(ctx, prog, "R6")
+        ctx.call(page_rules.seal_before_emit, prog, "R1", "table" if cfg == "lib" else "crate")
+        ctx.call(page_rules.flush_before_seek, prog, "R2")
+        ctx.call(page_rules.reload_after_advance, prog, "R3")
+        ctx.call(page_rules.flush_protocol, prog, "R3")
+        ctx.call(page_rules.formulas, prog, "R4")
+        ctx.call(page_rules.constants_agree, prog, "R5")
+        ctx.call(page_rules.cursor_writers, prog, "R5")
+        ctx.call(page_rules.read_current_page_shape, prog, "R6")
         if cfg == "lib":
-            crc_rules.crc32c_shape(ctx, prog, "R8")
-        cache_rules.serve_only_verified(ctx, prog, cache_rules.PR, rule="R4")
-        cache_rules.who_may_write(ctx, prog, cache_rules.PR, rule="R7")
-        cache_rules.invalidate_on_clobber(ctx, prog, cache_rules.PR, rule="R7")
-        cache_rules.validate_before_publish(ctx, prog, cache_rules.PR, "table" if cfg == "lib" else "crate", rule="R7")
+            ctx.call(crc_rules.crc32c_shape, prog, "R8")
+        ctx.call(cache_rules.serve_only_verified, prog, cache_rules.PR, rule="R4")
+        ctx.call(cache_rules.who_may_write, prog, cache_rules.PR, rule="R7")
+        ctx.call(cache_rules.invalidate_on_clobber, prog, cache_rules.PR, rule="R7")
+        ctx.call(cache_rules.validate_before_publish, prog, cache_rules.PR, "table" if cfg == "lib" else "crate", rule="R7")
     ctx.cfg = None
